@@ -18,6 +18,13 @@ package stats
 //@ guarded StatsCtx.limit by confMu
 //@ guarded StatsCtx.enabled by confMu
 
+// Lock order (C05): the bbolt writer lock (db.Begin(true), and db.Close() which waits for open transactions) and currMu
+// are taken in both orders - flushDB holds currMu and begins a transaction, loadUnits begins one and then read-locks
+// currMu.  That is safe only because both run under confMu (flush exclusively, readers shared).  So: whoever waits for
+// the database while holding the unit lock must hold the configuration lock exclusively.
+//@ package-callsite (*go.etcd.io/bbolt.DB).Begin(db, writable) requires db-writer-order: (!held(s.currMu) && !rheld(s.currMu)) || held(s.confMu)
+//@ package-callsite (*go.etcd.io/bbolt.DB).Close(db) requires db-writer-order: (!held(s.currMu) && !rheld(s.currMu)) || held(s.confMu)
+//@ sweep C05 (*go.etcd.io/bbolt.DB).Begin,(*go.etcd.io/bbolt.DB).Close
 //@ func (s *StatsCtx) isIgnored(host string) (r0 bool)
 //@   property C08
 //@   requires held(s.confMu) || rheld(s.confMu)
@@ -137,7 +144,7 @@ package stats
 // empty and carries the new id, and the only bucket deleted is the one that leaves the window (id - limit).
 //@ func (s *StatsCtx) flushDB(id uint32, limit uint32, ptr *unit) (cont bool, sleepFor time.Duration)
 //@   property C09
-//@   requires held(s.currMu) && (held(s.confMu) || rheld(s.confMu))
+//@   requires held(s.currMu) && held(s.confMu)
 //@   requires wfUnit(ptr)
 //@   callsite (*github.com/AdguardTeam/AdGuardHome/internal/stats.StatsCtx).flushUnitToDB(udb, tx, uid) requires persist-old-unit: uid == ptr.id && udb.NTotal == ptr.nTotal && len(udb.NResult) == 6 && (forall r int :: 0 <= r && r < 6 ==> udb.NResult[r] == ptr.nResult[r])
 //@   callsite (*go.etcd.io/bbolt.Tx).DeleteBucket(name) requires delete-leaving-bucket: bucketID(name) == uint32(id - limit)
